@@ -22,12 +22,14 @@ Fixpoint as_qs_aux (l : list val) : option (list (Z * Z * Z)) :=
 Definition as_qs (v : val) : option (list (Z * Z * Z)) :=
   match v with VL l => as_qs_aux l | _ => None end.
 
-(** a session step: [0,s,e,m] CountPrefixes, [1,maxSize] ShardByPrefix, [2] FirstDiffBits *)
+(** a session step: [0,s,e,m] CountPrefixes, [1,maxSize] ShardByPrefix, [2] FirstDiffBits,
+    [3,n,s,e,m] the same CountPrefixes n times (last answer) *)
 Definition as_step (v : val) : option (sstep * spec_step) :=
   match v with
   | VL [VZ 0; VZ s; VZ e; VZ m] => Some (QCount s e m, SCount s e m)
   | VL [VZ 1; VZ ms] => Some (QShard ms, SShard ms)
   | VL [VZ 2] => Some (QFdb, SFdb)
+  | VL [VZ 3; VZ n; VZ s; VZ e; VZ m] => Some (QRepeat n s e m, SRepeat n s e m)
   | _ => None
   end.
 Fixpoint as_steps_aux (l : list val) : option (list (sstep * spec_step)) :=
@@ -42,6 +44,7 @@ Definition c16_step_dom (keys : list (list Z)) (st : sstep) : bool :=
   | QCount s e m => c16_cp_dom keys s e m
   | QShard ms => 1 <=? ms
   | QFdb => true
+  | QRepeat n s e m => (1 <=? n) && c16_cp_dom keys s e m
   end.
 
 (** the run on a counter-described key set *)
